@@ -771,3 +771,48 @@ mod tests {
         assert_eq!(*dropped.borrow(), &[1, 2, 3, 4]);
     }
 }
+
+// Verification hooks (guarded; compiled only with `--cfg mini_moka_verif`).
+#[cfg(mini_moka_verif)]
+impl<T> Deque<T> {
+    /// Walks the list from the head following `next` pointers. Returns the node
+    /// addresses with references to their elements, or `Err` describing the first
+    /// structural inconsistency (prev/next mismatch, wrong tail, wrong len).
+    pub(crate) fn verif_walk(&self) -> Result<Vec<(usize, &T)>, String> {
+        let mut out = Vec::new();
+        let mut prev: Option<NonNull<DeqNode<T>>> = None;
+        let mut cur = self.head;
+        while let Some(node) = cur {
+            let n = unsafe { node.as_ref() };
+            if n.prev != prev {
+                return Err(format!("prev mismatch at position {}", out.len()));
+            }
+            out.push((node.as_ptr() as usize, &n.element));
+            if out.len() > self.len {
+                return Err("more nodes than len (cycle?)".to_string());
+            }
+            prev = cur;
+            cur = n.next;
+        }
+        if self.tail != prev {
+            return Err("tail mismatch".to_string());
+        }
+        if out.len() != self.len {
+            return Err(format!("len {} but {} nodes", self.len, out.len()));
+        }
+        Ok(out)
+    }
+
+    pub(crate) fn verif_len(&self) -> usize {
+        self.len
+    }
+
+    /// 0 = no cursor, 1 = at a node (address returned), 2 = done.
+    pub(crate) fn verif_cursor(&self) -> (u8, usize) {
+        match &self.cursor {
+            None => (0, 0),
+            Some(DeqCursor::Node(n)) => (1, n.as_ptr() as usize),
+            Some(DeqCursor::Done) => (2, 0),
+        }
+    }
+}
